@@ -29,6 +29,8 @@ m = {
               "baseline_off_cmd": "cd /repo && go test -vet=off -count=1 ./...",
               "source_commits": T.HOOK_COMMITS, "add_only": True},
     "engines": [
+        {"name": "tools", "path": "/verif/harness", "serves_properties": [p for p in sorted(PROPS) if T.TEXTS[p].get("engine") == "tools"],
+         "kind_free_text": "Go harnesses driving the real pigeon binary and front-end: pvfront (round trip through the verif AST-dump hook), pvboot (bootstrap vs generated front-end), pvtool (process-level totality), pve2e (generate + vet + build + run), artifact regeneration; each with a small kernel-checked Lean fragment"},
         {"name": "lean-mid", "path": "/verif/lean", "serves_properties": [p for p in sorted(PROPS) if T.TEXTS[p].get("engine") == "lean-mid"],
          "kind_free_text": "Lean 4 model of the grammar analysis (Model/Mid.lean: nullable flags, first graph, SCCs, leader) + independent specification, tied to ast/ and builder/ by harness/cmd/pvmid"},
         {"name": "lean-rt", "path": "/verif/lean", "serves_properties": [p for p in sorted(PROPS) if T.TEXTS[p].get("engine", "lean-rt") == "lean-rt"],
